@@ -102,7 +102,10 @@ LEVEL_NOTE = ("Trusted: Lean kernel + standard axioms; tools/genparts/c17.py (AS
               "idempotence is a comparison, not a theorem. Model/AppState.lean (the state-threading re-statement of the resolver "
               "loops is proved equal to the originals; WHICH state the real objects keep is the modelling decision, sampled by "
               "c17.app_hist and by the reused-vs-fresh runs). Model/RunIO.lean: that create_io stores nothing of the I/O it "
-              "builds (FmtProto.perRun) is read from the source by hand, not regenerated; it is what the comparison of the I/O "
+              "builds (FmtProto.perRun, keysOf) is read from the source by hand; tools/genparts/c09.py matches the text of the formatter "
+              "selection of create_io (constructor calls `PlainFormatter(style_set)` / `AnsiFormatter(style_set[, True])` in every "
+              "branch, `io = self.io_class(Input(..), Output(.., output_formatter), Output(.., error_formatter))`) and refuses to "
+              "regenerate Gen/C09.lean when it differs (tie A note); beyond that it is what the comparison of the I/O "
               "state found by every handler with the real objects tests (a cached formatter object shows as a registry / "
               "shared-object difference in the next run).")
 RULE = ("proto: 3 settings x inner ok/raises (exhaustive); styles: all op sequences of length <= 3 (quick) / 4 (thorough) over "
